@@ -1,5 +1,526 @@
 import SemVerif.Spec.Preds
 import SemVerif.Inventory
-/-! # Property C16 — theorems (under construction) -/
+import SemVerif.Props.C17
+/-!
+# Property C16 — results do not depend on the textual order of top-level declarations
+
+`C16`: let `p'` be any permutation of the top-level statements of `p` that keeps the constant
+declarations in the same relative order, and let the struct names and the function names of `p` be
+pairwise distinct.  Then the two runs have
+* the same constant table, and type and function tables that are permutations of each other with
+  pairwise distinct keys (the same finite maps), hence the same lookups (`C16_globals`);
+* error lists that are permutations of each other (the same multiset), hence the same verdict;
+* for every function the identical root block — stack and block tree (`C16_roots`: the lists of
+  (function, root block) pairs are permutations of each other);
+* a panic in one exactly when there is one in the other.
+
+Proof: the type pass registers every struct (distinct names: no duplicate is ever rejected), so
+`typeExists` is the same predicate in both runs; constants only read the constant table and
+`typeExists`, functions only read the function table (for the duplicate check, which never fires)
+and `typeExists`; so the second pass splits into its constant part — identical in both runs — and
+its function part — a `filterMap` over the functions.  Bodies see the tables only through the
+lookups of `Globals`.
+-/
 namespace SemVerif
+
+def TopStmt.ty? : TopStmt → Option StructDecl
+  | .types d => some d
+  | _ => none
+def TopStmt.const? : TopStmt → Option ConstDecl
+  | .const d => some d
+  | _ => none
+def TopStmt.fn? : TopStmt → Option FnDecl
+  | .fn f => some f
+  | _ => none
+
+def Program.tds (p : Program) : List StructDecl := p.filterMap TopStmt.ty?
+def Program.cds (p : Program) : List ConstDecl := p.filterMap TopStmt.const?
+
+@[simp] theorem tds_types (d : StructDecl) (r : Program) : Program.tds (.types d :: r) = d :: Program.tds r := rfl
+@[simp] theorem tds_fn (f : FnDecl) (r : Program) : Program.tds (.fn f :: r) = Program.tds r := rfl
+@[simp] theorem tds_imp (x : List Name) (r : Program) : Program.tds (.imp x :: r) = Program.tds r := rfl
+@[simp] theorem tds_const (d : ConstDecl) (r : Program) : Program.tds (.const d :: r) = Program.tds r := rfl
+@[simp] theorem cds_types (d : StructDecl) (r : Program) : Program.cds (.types d :: r) = Program.cds r := rfl
+@[simp] theorem cds_fn (f : FnDecl) (r : Program) : Program.cds (.fn f :: r) = Program.cds r := rfl
+@[simp] theorem cds_imp (x : List Name) (r : Program) : Program.cds (.imp x :: r) = Program.cds r := rfl
+@[simp] theorem cds_const (d : ConstDecl) (r : Program) : Program.cds (.const d :: r) = d :: Program.cds r := rfl
+@[simp] theorem fns_types (d : StructDecl) (r : Program) : Program.fns (.types d :: r) = Program.fns r := rfl
+@[simp] theorem fns_fn (f : FnDecl) (r : Program) : Program.fns (.fn f :: r) = f :: Program.fns r := rfl
+@[simp] theorem fns_imp (x : List Name) (r : Program) : Program.fns (.imp x :: r) = Program.fns r := rfl
+@[simp] theorem fns_const (d : ConstDecl) (r : Program) : Program.fns (.const d :: r) = Program.fns r := rfl
+
+theorem fns_eq_filterMap : ∀ (p : Program), p.fns = p.filterMap TopStmt.fn?
+  | [] => rfl
+  | .fn f :: rest => by rw [fns_fn, fns_eq_filterMap rest]; rfl
+  | .imp _ :: rest => by rw [fns_imp, fns_eq_filterMap rest]; rfl
+  | .types _ :: rest => by rw [fns_types, fns_eq_filterMap rest]; rfl
+  | .const _ :: rest => by rw [fns_const, fns_eq_filterMap rest]; rfl
+
+/-! ### Association lists -/
+
+theorem assocGet_append {β : Type} (k : Name) : ∀ (l m : List (Name × β)),
+    assocGet k (l ++ m) = match assocGet k l with
+      | some v => some v
+      | none => assocGet k m
+  | [], m => rfl
+  | (k', v') :: rest, m => by
+    simp only [List.cons_append, assocGet]
+    by_cases h : k = k'
+    · simp [h]
+    · simp only [h, if_false]; exact assocGet_append k rest m
+
+theorem assocInsert_absent {β : Type} (k : Name) (v : β) : ∀ (l : List (Name × β)), assocGet k l = none →
+    assocInsert k v l = l ++ [(k, v)]
+  | [], _ => rfl
+  | (k', v') :: rest, h => by
+    simp only [assocGet] at h
+    by_cases hk : k = k'
+    · simp [hk] at h
+    · simp only [hk, if_false] at h
+      simp [assocInsert, hk, assocInsert_absent k v rest h]
+
+theorem assocGet_none_of_not_mem {β : Type} (k : Name) : ∀ (l : List (Name × β)), k ∉ l.map (·.1) → assocGet k l = none
+  | [], _ => rfl
+  | (k', v') :: rest, h => by
+    simp only [List.map_cons, List.mem_cons, not_or] at h
+    simp [assocGet, h.1, assocGet_none_of_not_mem k rest h.2]
+
+theorem assocGet_some_iff {β : Type} (k : Name) (v : β) : ∀ (l : List (Name × β)), (l.map (·.1)).Nodup →
+    (assocGet k l = some v ↔ (k, v) ∈ l)
+  | [], _ => by simp [assocGet]
+  | (k', v') :: rest, h => by
+    simp only [List.map_cons, List.nodup_cons] at h
+    simp only [assocGet, List.mem_cons, Prod.mk.injEq]
+    by_cases hk : k = k'
+    · subst hk
+      simp only [if_true, Option.some.injEq, true_and]
+      constructor
+      · intro e; exact Or.inl e.symm
+      · rintro (e | hm)
+        · exact e.symm
+        · exact absurd (List.mem_map.mpr ⟨(k, v), hm, rfl⟩) h.1
+    · simp only [hk, if_false, false_and, false_or]
+      exact assocGet_some_iff k v rest h.2
+
+theorem assocGet_perm {β : Type} (k : Name) {l l' : List (Name × β)} (hp : l.Perm l') (hn : (l.map (·.1)).Nodup) :
+    assocGet k l = assocGet k l' := by
+  have hn' : (l'.map (·.1)).Nodup := (hp.map _).nodup_iff.mp hn
+  apply Option.ext
+  intro v
+  rw [assocGet_some_iff k v l hn, assocGet_some_iff k v l' hn', hp.mem_iff]
+
+/-! ### The type pass -/
+
+theorem pass1_eq_foldl : ∀ (p : Program) (gs : GState), pass1 p gs = p.tds.foldl (fun gs d => declType d gs) gs
+  | [], _ => rfl
+  | .types d :: rest, gs => by rw [tds_types, List.foldl_cons]; simp only [pass1]; exact pass1_eq_foldl rest _
+  | .fn _ :: rest, gs => by rw [tds_fn]; simp only [pass1]; exact pass1_eq_foldl rest _
+  | .imp _ :: rest, gs => by rw [tds_imp]; simp only [pass1]; exact pass1_eq_foldl rest _
+  | .const _ :: rest, gs => by rw [tds_const]; simp only [pass1]; exact pass1_eq_foldl rest _
+
+theorem types_foldl : ∀ (ds : List StructDecl) (gs : GState), (ds.map (·.name)).Nodup →
+    (∀ d ∈ ds, assocGet d.name gs.types = none) →
+    ds.foldl (fun gs d => declType d gs) gs =
+      { gs with types := gs.types ++ ds.map tyEntry, context := gs.context ++ ds.map tyInstr }
+  | [], gs, _, _ => by simp
+  | d :: ds, gs, hn, hfresh => by
+    simp only [List.map_cons, List.nodup_cons] at hn
+    have hd := hfresh d (by simp)
+    have h1 : declType d gs = { gs with types := gs.types ++ [tyEntry d], context := gs.context ++ [tyInstr d] } := by
+      unfold declType
+      rw [hd]
+      simp only [Option.isSome_none, Bool.false_eq_true, if_false]
+      rw [assocInsert_absent _ _ _ hd]
+      rfl
+    simp only [List.foldl_cons]
+    rw [h1, types_foldl ds _ hn.2]
+    · simp [List.append_assoc]
+    · intro d' hd'
+      rw [assocGet_append, hfresh d' (by simp [hd'])]
+      have hne : d'.name ≠ d.name := by
+        intro e; exact hn.1 (List.mem_map.mpr ⟨d', hd', e⟩)
+      simp [tyEntry, assocGet, hne]
+
+theorem pass1_init (p : Program) (hn : (p.tds.map (·.name)).Nodup) :
+    pass1 p GState.init = { GState.init with types := p.tds.map tyEntry, context := p.tds.map tyInstr } := by
+  rw [pass1_eq_foldl, types_foldl p.tds GState.init hn (fun _ _ => rfl)]
+  simp [GState.init]
+
+/-- the two states agree on which types exist -/
+def TEq (a b : GState) : Prop := ∀ t, a.typeExists t = b.typeExists t
+
+theorem TEq.refl (a : GState) : TEq a a := fun _ => rfl
+theorem TEq.symm {a b : GState} (h : TEq a b) : TEq b a := fun t => (h t).symm
+theorem TEq.trans {a b c : GState} (h1 : TEq a b) (h2 : TEq b c) : TEq a c := fun t => (h1 t).trans (h2 t)
+theorem TEq.of_types {a b : GState} (h : a.types = b.types) : TEq a b := by
+  intro t; unfold GState.typeExists; rw [h]
+
+theorem tyEntry_keys (ds : List StructDecl) : (ds.map tyEntry).map (·.1) = ds.map (·.name) := by
+  simp [List.map_map, Function.comp_def, tyEntry]
+
+/-! ### The second pass splits into its constant part and its function part -/
+
+def pc (cs : List ConstDecl) (gs : GState) : GState := cs.foldl (fun gs d => declConst d gs) gs
+def pf (fs : List FnDecl) (gs : GState) : GState := fs.foldl (fun gs f => declFn f gs) gs
+
+theorem checkConstTail_go_congr {a b : GState} (h : a.consts = b.consts) : ∀ (e : CExpr),
+    checkConstTail.go a e = checkConstTail.go b e
+  | .last (.const n) => by simp [checkConstTail.go, h]
+  | .last (.val _) => by simp [checkConstTail.go]
+  | .cons (.const n) _ rest => by simp [checkConstTail.go, h, checkConstTail_go_congr h rest]
+  | .cons (.val _) _ rest => by simp [checkConstTail.go, checkConstTail_go_congr h rest]
+
+theorem checkConstTail_congr {a b : GState} (h : a.consts = b.consts) (x : Option (Op × CExpr)) :
+    checkConstTail a x = checkConstTail b x := by
+  cases x with
+  | none => rfl
+  | some q => obtain ⟨o, e⟩ := q; simp [checkConstTail, checkConstTail_go_congr h e]
+
+theorem checkParamTypes_congr {a b : GState} (h : TEq a b) : ∀ (ps : List (Name × ATy)),
+    checkParamTypes a ps = checkParamTypes b ps
+  | [] => rfl
+  | (n, t) :: rest => by simp [checkParamTypes, h t.toTy, checkParamTypes_congr h rest]
+
+theorem declConst_frame (d : ConstDecl) (gs : GState) :
+    (declConst d gs).types = gs.types ∧ (declConst d gs).funcs = gs.funcs := by
+  unfold declConst
+  split
+  · exact ⟨rfl, rfl⟩
+  · split
+    · exact ⟨rfl, rfl⟩
+    · dsimp only; split <;> exact ⟨rfl, rfl⟩
+
+theorem declFn_frame (f : FnDecl) (gs : GState) :
+    (declFn f gs).types = gs.types ∧ (declFn f gs).consts = gs.consts := by
+  unfold declFn
+  split
+  · exact ⟨rfl, rfl⟩
+  · split
+    · exact ⟨rfl, rfl⟩
+    · split <;> exact ⟨rfl, rfl⟩
+
+theorem declConst_congr (d : ConstDecl) {a b : GState} (h1 : a.consts = b.consts) (h2 : TEq a b) :
+    (declConst d a).consts = (declConst d b).consts ∧
+    ∃ Δ, (declConst d a).errors = a.errors ++ Δ ∧ (declConst d b).errors = b.errors ++ Δ := by
+  have e : ∀ t, a.typeExists t = b.typeExists t := h2
+  unfold declConst
+  dsimp only
+  rw [h1, checkConstTail_congr h1, e]
+  split
+  · exact ⟨h1, _, rfl, rfl⟩
+  · split
+    · exact ⟨h1, _, rfl, rfl⟩
+    · split
+      · exact ⟨h1, _, rfl, rfl⟩
+      · exact ⟨rfl, [], by simp, by simp⟩
+
+theorem declFn_congr (f : FnDecl) {a b : GState} (h1 : a.funcs = b.funcs) (h2 : TEq a b) :
+    (declFn f a).funcs = (declFn f b).funcs ∧
+    ∃ Δ, (declFn f a).errors = a.errors ++ Δ ∧ (declFn f b).errors = b.errors ++ Δ := by
+  have e : ∀ t, a.typeExists t = b.typeExists t := h2
+  unfold declFn
+  rw [h1, checkParamTypes_congr h2, e]
+  split
+  · exact ⟨h1, _, rfl, rfl⟩
+  · split
+    · exact ⟨h1, _, rfl, rfl⟩
+    · split
+      · exact ⟨h1, _, rfl, rfl⟩
+      · exact ⟨rfl, [], by simp, by simp⟩
+
+theorem pc_frame : ∀ (cs : List ConstDecl) (gs : GState), (pc cs gs).types = gs.types ∧ (pc cs gs).funcs = gs.funcs
+  | [], _ => ⟨rfl, rfl⟩
+  | d :: cs, gs => by
+    have h := pc_frame cs (declConst d gs)
+    have h2 := declConst_frame d gs
+    exact ⟨h.1.trans h2.1, h.2.trans h2.2⟩
+
+theorem pf_frame : ∀ (fs : List FnDecl) (gs : GState), (pf fs gs).types = gs.types ∧ (pf fs gs).consts = gs.consts
+  | [], _ => ⟨rfl, rfl⟩
+  | f :: fs, gs => by
+    have h := pf_frame fs (declFn f gs)
+    have h2 := declFn_frame f gs
+    exact ⟨h.1.trans h2.1, h.2.trans h2.2⟩
+
+theorem pc_congr : ∀ (cs : List ConstDecl) (a b : GState), a.consts = b.consts → TEq a b →
+    (pc cs a).consts = (pc cs b).consts ∧ ∃ Δ, (pc cs a).errors = a.errors ++ Δ ∧ (pc cs b).errors = b.errors ++ Δ
+  | [], a, b, h1, _ => ⟨h1, [], by simp [pc], by simp [pc]⟩
+  | d :: cs, a, b, h1, h2 => by
+    obtain ⟨c1, δ, e1, e2⟩ := declConst_congr d h1 h2
+    have t : TEq (declConst d a) (declConst d b) :=
+      (TEq.of_types (declConst_frame d a).1).trans (h2.trans (TEq.of_types (declConst_frame d b).1.symm))
+    obtain ⟨c2, Δ, f1, f2⟩ := pc_congr cs _ _ c1 t
+    refine ⟨c2, δ ++ Δ, ?_, ?_⟩
+    · show (pc cs (declConst d a)).errors = _; rw [f1, e1, List.append_assoc]
+    · show (pc cs (declConst d b)).errors = _; rw [f2, e2, List.append_assoc]
+
+theorem pass2_split : ∀ (p : Program) (gs gc gf : GState), gs.consts = gc.consts → gs.funcs = gf.funcs →
+    TEq gs gc → TEq gs gf →
+    (pass2 p gs).consts = (pc p.cds gc).consts ∧ (pass2 p gs).funcs = (pf p.fns gf).funcs ∧
+    (pass2 p gs).types = gs.types ∧
+    ∃ Δ ΔC ΔF, (pass2 p gs).errors = gs.errors ++ Δ ∧ (pc p.cds gc).errors = gc.errors ++ ΔC ∧
+      (pf p.fns gf).errors = gf.errors ++ ΔF ∧ Δ.Perm (ΔC ++ ΔF)
+  | [], gs, gc, gf, h1, h2, _, _ => ⟨h1, h2, rfl, [], [], [], by simp [pass2], by simp [pc, Program.cds], by simp [pf, Program.fns], List.Perm.refl _⟩
+  | .imp _ :: rest, gs, gc, gf, h1, h2, t1, t2 => by
+    simpa [pass2] using pass2_split rest gs gc gf h1 h2 t1 t2
+  | .types _ :: rest, gs, gc, gf, h1, h2, t1, t2 => by
+    simpa [pass2] using pass2_split rest gs gc gf h1 h2 t1 t2
+  | .const d :: rest, gs, gc, gf, h1, h2, t1, t2 => by
+    obtain ⟨c1, δ, e1, e2⟩ := declConst_congr d h1 t1
+    have fr := declConst_frame d gs
+    have frc := declConst_frame d gc
+    have t1' : TEq (declConst d gs) (declConst d gc) :=
+      (TEq.of_types fr.1).trans (t1.trans (TEq.of_types frc.1.symm))
+    have t2' : TEq (declConst d gs) gf := (TEq.of_types fr.1).trans t2
+    obtain ⟨a1, a2, a3, Δ, ΔC, ΔF, b1, b2, b3, b4⟩ :=
+      pass2_split rest (declConst d gs) (declConst d gc) gf c1 (fr.2.trans h2) t1' t2'
+    refine ⟨?_, ?_, ?_, δ ++ Δ, δ ++ ΔC, ΔF, ?_, ?_, ?_, ?_⟩
+    · simpa [pass2, pc] using a1
+    · simpa [pass2] using a2
+    · simp only [pass2]; rw [a3, fr.1]
+    · simp only [pass2]; rw [b1, e1, List.append_assoc]
+    · rw [cds_const]
+      show (pc (Program.cds rest) (declConst d gc)).errors = _
+      rw [b2, e2, List.append_assoc]
+    · simpa using b3
+    · rw [List.append_assoc]; exact b4.append_left δ
+  | .fn f :: rest, gs, gc, gf, h1, h2, t1, t2 => by
+    obtain ⟨c1, δ, e1, e2⟩ := declFn_congr f h2 t2
+    have fr := declFn_frame f gs
+    have frf := declFn_frame f gf
+    have t2' : TEq (declFn f gs) (declFn f gf) :=
+      (TEq.of_types fr.1).trans (t2.trans (TEq.of_types frf.1.symm))
+    have t1' : TEq (declFn f gs) gc := (TEq.of_types fr.1).trans t1
+    obtain ⟨a1, a2, a3, Δ, ΔC, ΔF, b1, b2, b3, b4⟩ :=
+      pass2_split rest (declFn f gs) gc (declFn f gf) (fr.2.trans h1) c1 t1' t2'
+    refine ⟨?_, ?_, ?_, δ ++ Δ, ΔC, δ ++ ΔF, ?_, ?_, ?_, ?_⟩
+    · simpa [pass2] using a1
+    · simpa [pass2, pf] using a2
+    · simp only [pass2]; rw [a3, fr.1]
+    · simp only [pass2]; rw [b1, e1, List.append_assoc]
+    · simpa using b2
+    · rw [fns_fn]
+      show (pf (Program.fns rest) (declFn f gf)).errors = _
+      rw [b3, e2, List.append_assoc]
+    · refine (b4.append_left δ).trans ?_
+      rw [← List.append_assoc, ← List.append_assoc]
+      exact List.Perm.append_right ΔF List.perm_append_comm
+
+
+/-! ### The function part, for pairwise distinct function names -/
+
+def fnEntry? (gs : GState) (f : FnDecl) : Option (Name × Func) :=
+  if !gs.typeExists f.result.toTy then none
+  else match checkParamTypes gs f.params with
+    | some _ => none
+    | none => some (f.name, ⟨f.name, f.result.toTy, f.params.map fun p => p.2.toTy⟩)
+
+def fnErrs (gs : GState) (f : FnDecl) : List Err :=
+  if !gs.typeExists f.result.toTy then [⟨.typeNotFound, f.name, 1, 0⟩]
+  else match checkParamTypes gs f.params with
+    | some n => [⟨.typeNotFound, n, 1, 0⟩]
+    | none => []
+
+theorem fnEntry?_congr {a b : GState} (h : TEq a b) (f : FnDecl) : fnEntry? a f = fnEntry? b f := by
+  unfold fnEntry?; rw [h, checkParamTypes_congr h]
+theorem fnErrs_congr {a b : GState} (h : TEq a b) (f : FnDecl) : fnErrs a f = fnErrs b f := by
+  unfold fnErrs; rw [h, checkParamTypes_congr h]
+
+theorem fnEntry?_key {gs : GState} {f : FnDecl} {e : Name × Func} (h : fnEntry? gs f = some e) : e.1 = f.name := by
+  unfold fnEntry? at h
+  split at h
+  · cases h
+  · split at h
+    · cases h
+    · cases h; rfl
+
+theorem declFn_fresh (f : FnDecl) (gs : GState) (h : assocGet f.name gs.funcs = none) :
+    (declFn f gs).funcs = gs.funcs ++ (fnEntry? gs f).toList ∧ (declFn f gs).errors = gs.errors ++ fnErrs gs f := by
+  unfold declFn fnEntry? fnErrs
+  rw [h]
+  simp only [Option.isSome_none, Bool.false_eq_true, if_false]
+  by_cases h1 : (!gs.typeExists f.result.toTy) = true
+  · simp [h1, GState.addErr]
+  · simp only [h1, if_false]
+    cases h2 : checkParamTypes gs f.params with
+    | some n => simp [GState.addErr]
+    | none => simp [assocInsert_absent _ _ _ h]
+
+theorem pf_char : ∀ (fs : List FnDecl) (gs : GState), (fs.map (·.name)).Nodup →
+    (∀ f ∈ fs, assocGet f.name gs.funcs = none) →
+    (pf fs gs).funcs = gs.funcs ++ fs.filterMap (fnEntry? gs) ∧ (pf fs gs).errors = gs.errors ++ fs.flatMap (fnErrs gs)
+  | [], gs, _, _ => by simp [pf]
+  | f :: fs, gs, hn, hfresh => by
+    simp only [List.map_cons, List.nodup_cons] at hn
+    obtain ⟨d1, d2⟩ := declFn_fresh f gs (hfresh f (by simp))
+    have t : TEq (declFn f gs) gs := TEq.of_types (declFn_frame f gs).1
+    have hfresh' : ∀ f' ∈ fs, assocGet f'.name (declFn f gs).funcs = none := by
+      intro f' hf'
+      rw [d1, assocGet_append, hfresh f' (by simp [hf'])]
+      have hne : f'.name ≠ f.name := fun e => hn.1 (List.mem_map.mpr ⟨f', hf', e⟩)
+      cases he : fnEntry? gs f with
+      | none => rfl
+      | some e =>
+        have := fnEntry?_key he
+        obtain ⟨k, v⟩ := e
+        simp only at this
+        subst this
+        simp [assocGet, hne]
+    obtain ⟨i1, i2⟩ := pf_char fs (declFn f gs) hn.2 hfresh'
+    have e1 : fs.filterMap (fnEntry? (declFn f gs)) = fs.filterMap (fnEntry? gs) := by
+      congr 1; funext x; exact fnEntry?_congr t x
+    have e2 : fs.flatMap (fnErrs (declFn f gs)) = fs.flatMap (fnErrs gs) := by
+      congr 1; funext x; exact fnErrs_congr t x
+    refine ⟨?_, ?_⟩
+    · show (pf fs (declFn f gs)).funcs = _
+      rw [i1, d1, e1, List.append_assoc]
+      congr 1
+      cases he : fnEntry? gs f <;> simp [List.filterMap_cons, he]
+    · show (pf fs (declFn f gs)).errors = _
+      rw [i2, d2, e2, List.append_assoc]
+      simp [List.flatMap_cons]
+
+theorem fnEntry_keys_sublist (gs : GState) : ∀ (fs : List FnDecl),
+    ((fs.filterMap (fnEntry? gs)).map (·.1)).Sublist (fs.map (·.name))
+  | [] => List.Sublist.slnil
+  | f :: fs => by
+    cases he : fnEntry? gs f with
+    | none =>
+      simp only [List.filterMap_cons, he, List.map_cons]
+      exact (fnEntry_keys_sublist gs fs).cons _
+    | some e =>
+      simp only [List.filterMap_cons, he, List.map_cons]
+      rw [fnEntry?_key he]
+      exact (fnEntry_keys_sublist gs fs).cons_cons _
+
+/-! ### The declaration phase -/
+
+/-- the same tables (as finite maps), the same errors (as a multiset) -/
+structure DeclEq (s s' : GState) : Prop where
+  consts : s'.consts = s.consts
+  funcs : s'.funcs.Perm s.funcs
+  types : s'.types.Perm s.types
+  errors : s'.errors.Perm s.errors
+  tkeys : (s.types.map (·.1)).Nodup
+  fkeys : (s.funcs.map (·.1)).Nodup
+
+theorem declState_char (p : Program) (ht : (p.tds.map (·.name)).Nodup) (hf : (p.fns.map (·.name)).Nodup) :
+    let g1 : GState := { GState.init with types := p.tds.map tyEntry, context := p.tds.map tyInstr }
+    (declState p).types = p.tds.map tyEntry ∧
+    (declState p).consts = (pc p.cds g1).consts ∧
+    (declState p).funcs = p.fns.filterMap (fnEntry? g1) ∧
+    (declState p).errors.Perm ((pc p.cds g1).errors ++ p.fns.flatMap (fnErrs g1)) := by
+  intro g1
+  unfold declState
+  rw [pass1_init p ht]
+  obtain ⟨a1, a2, a3, Δ, ΔC, ΔF, b1, b2, b3, b4⟩ := pass2_split p g1 g1 g1 rfl rfl (TEq.refl _) (TEq.refl _)
+  obtain ⟨c1, c2⟩ := pf_char p.fns g1 hf (fun _ _ => rfl)
+  have hg : g1.errors = [] := rfl
+  have hgf : g1.funcs = [] := rfl
+  rw [hg, List.nil_append] at b1 b2 b3 c2
+  rw [hgf, List.nil_append] at c1
+  refine ⟨a3, a1, by rw [a2, c1], ?_⟩
+  show (pass2 p g1).errors.Perm _
+  rw [b1, b2, ← c2, b3]
+  exact b4
+
+theorem teq_of_perm {a b : GState} (h : a.types.Perm b.types) (hn : (a.types.map (·.1)).Nodup) : TEq a b := by
+  intro t
+  unfold GState.typeExists
+  cases t with
+  | prim _ => rfl
+  | struct n at_ => simp only; rw [assocGet_perm _ h hn]
+  | array t n => simp only; rw [assocGet_perm _ h hn]
+
+/-- the declaration phase of a permuted program -/
+theorem decl_perm (p p' : Program) (hperm : p.Perm p') (hc : p.cds = p'.cds)
+    (ht : (p.tds.map (·.name)).Nodup) (hf : (p.fns.map (·.name)).Nodup) : DeclEq (declState p) (declState p') := by
+  have pt : p.tds.Perm p'.tds := hperm.filterMap _
+  have pfn : p.fns.Perm p'.fns := by rw [fns_eq_filterMap, fns_eq_filterMap]; exact hperm.filterMap _
+  have ht' : (p'.tds.map (·.name)).Nodup := (pt.map _).nodup_iff.mp ht
+  have hf' : (p'.fns.map (·.name)).Nodup := (pfn.map _).nodup_iff.mp hf
+  obtain ⟨t1, c1, f1, e1⟩ := declState_char p ht hf
+  obtain ⟨t2, c2, f2, e2⟩ := declState_char p' ht' hf'
+  generalize hg1 : ({ GState.init with types := p.tds.map tyEntry, context := p.tds.map tyInstr } : GState) = g1 at c1 f1 e1
+  generalize hg2 : ({ GState.init with types := p'.tds.map tyEntry, context := p'.tds.map tyInstr } : GState) = g2 at c2 f2 e2
+  have hty1 : g1.types = p.tds.map tyEntry := by rw [← hg1]
+  have hty2 : g2.types = p'.tds.map tyEntry := by rw [← hg2]
+  have hk1 : (g1.types.map (·.1)).Nodup := by rw [hty1, tyEntry_keys]; exact ht
+  have teq : TEq g1 g2 := teq_of_perm (by rw [hty1, hty2]; exact pt.map _) hk1
+  have hcs : g1.consts = g2.consts := by rw [← hg1, ← hg2]
+  obtain ⟨pc1, Δ0, pe1, pe2⟩ := pc_congr p.cds g1 g2 hcs teq
+  have hge1 : g1.errors = [] := by rw [← hg1]; rfl
+  have hge2 : g2.errors = [] := by rw [← hg2]; rfl
+  rw [hge1, List.nil_append] at pe1
+  rw [hge2, List.nil_append] at pe2
+  refine ⟨?_, ?_, ?_, ?_, ?_, ?_⟩
+  · rw [c1, c2, ← hc, pc1]
+  · rw [f1, f2]
+    have : p'.fns.filterMap (fnEntry? g2) = p'.fns.filterMap (fnEntry? g1) := by
+      congr 1; funext x; exact (fnEntry?_congr teq x).symm
+    rw [this]
+    exact (pfn.filterMap _).symm
+  · rw [t1, t2]; exact (pt.map _).symm
+  · refine e2.trans (List.Perm.trans ?_ e1.symm)
+    rw [← hc, pe1, pe2]
+    have : p'.fns.flatMap (fnErrs g2) = p'.fns.flatMap (fnErrs g1) := by
+      congr 1; funext x; exact (fnErrs_congr teq x).symm
+    rw [this]
+    exact List.Perm.append_left _ (pfn.flatMap_right _).symm
+  · rw [t1, tyEntry_keys]; exact ht
+  · rw [f1]; exact (fnEntry_keys_sublist g1 p.fns).nodup hf
+
+theorem globals_eq {s s' : GState} (h : DeclEq s s') : s'.globals = s.globals := by
+  unfold GState.globals
+  congr 1
+  · funext n; exact (assocGet_perm n h.types.symm h.tkeys).symm
+  · rw [h.consts]
+  · funext n; exact (assocGet_perm n h.funcs.symm h.fkeys).symm
+
+/-! ### The whole run -/
+
+theorem firstPanic_isSome : ∀ (l : List St), (firstPanic l).isSome = l.any (·.panic.isSome)
+  | [] => rfl
+  | s :: rest => by
+    unfold firstPanic
+    cases h : s.panic with
+    | some x => simp [h]
+    | none => simp [h, firstPanic_isSome rest]
+
+theorem zip_map_self {α β : Type} (F : α → β) : ∀ (l : List α), l.zip (l.map F) = l.map fun a => (a, F a)
+  | [] => rfl
+  | a :: l => by simp [zip_map_self F l]
+
+/-- **C16** — the run of a program and of any permutation of its top-level statements that keeps the constants in the
+same relative order (struct names and function names pairwise distinct): same constant table; type and function tables
+equal as finite maps (permutations with pairwise distinct keys); the same multiset of errors; a panic in both or in
+neither; and for every function the identical root block, i.e. the identical instruction stack and block tree. -/
+theorem C16 (p p' : Program) (hperm : p.Perm p') (hc : p.cds = p'.cds)
+    (ht : (p.tds.map (·.name)).Nodup) (hf : (p.fns.map (·.name)).Nodup) :
+    (run p').consts = (run p).consts ∧
+    (run p').types.Perm (run p).types ∧ ((run p).types.map (·.1)).Nodup ∧
+    (run p').funcs.Perm (run p).funcs ∧ ((run p).funcs.map (·.1)).Nodup ∧
+    (run p').errors.Perm (run p).errors ∧
+    ((run p').panic.isSome = (run p).panic.isSome) ∧
+    (p'.fns.zip (run p').roots).Perm (p.fns.zip (run p).roots) := by
+  have hd := decl_perm p p' hperm hc ht hf
+  have hg := globals_eq hd
+  have pfn : p.fns.Perm p'.fns := by rw [fns_eq_filterMap, fns_eq_filterMap]; exact hperm.filterMap _
+  have hrun : ∀ q : Program, run q =
+      { panic := firstPanic (q.fns.map (functionBody (declState q).globals)),
+        errors := (declState q).errors ++ ((q.fns.map (functionBody (declState q).globals)).map (·.errors)).flatten,
+        types := (declState q).types, consts := (declState q).consts, funcs := (declState q).funcs,
+        gcontext := (declState q).context,
+        roots := (q.fns.map (functionBody (declState q).globals)).map (·.root) } := fun _ => rfl
+  rw [hrun p, hrun p']
+  dsimp only
+  rw [hg]
+  refine ⟨hd.consts, hd.types, hd.tkeys, hd.funcs, hd.fkeys, ?_, ?_, ?_⟩
+  · refine List.Perm.append hd.errors ?_
+    exact (((pfn.map _).map _).flatten).symm
+  · rw [firstPanic_isSome, firstPanic_isSome]
+    exact ((pfn.map _).any_eq).symm
+  · rw [List.map_map, List.map_map, zip_map_self, zip_map_self]
+    exact (pfn.map _).symm
+
 end SemVerif
